@@ -40,7 +40,7 @@ SUMMANDS = [
 def gates(tier):
     return {'limit_grid_cases': 3000, 'members_expected': 2500, 'nonmembers_expected': 1500,
             'transformation_cases': 600, 'input_position_subsets': 15, 'infinite_limit_cases': 150,
-            'student_error_cases': 300, 'percent_tolerance_cases': 300, 'relative_operand_discriminating': 100, 'author_error_cases': 40, 'empty_range_cases': 50}
+            'student_error_cases': 300, 'percent_tolerance_cases': 300, 'relative_operand_discriminating': 100, 'author_error_cases': 40, 'empty_range_cases': 50, 'beyond_cutoff_cases': 60}
 
 
 def ref_sum(f, lo, hi, even_odd, x, cutoff=None):
@@ -319,6 +319,28 @@ def run_infinite(ctx):
         ctx.count('infinite_limit_cases')
         wit = {'submission': sub, 'even_odd': eo, 'infty_val': cutoff, 'terms': count, 'reference_sum': value}
         judge(ctx, 'C19:infinite:' + form, out, not perturb, wit)
+    # finite limits beyond the cutoff are NOT truncated: the cutoff only replaces infinite limits
+    for i in range(ctx.n(160, 2000)):
+        cutoff = rng.choice([3, 5, 8])
+        eo = rng.choice([0, 1, 2])
+        lo = rng.randint(-12, 2)
+        hi = rng.randint(cutoff + 1, 12)
+        if rng.random() < 0.5:
+            lo = rng.randint(-12, -cutoff - 1)
+        tpl, f, kind = rng.choice(SUMMANDS[:4])
+        x = 2.0
+        value, count = ref_sum(f, lo, hi, eo, x)
+        trunc, _ = ref_sum(f, max(lo, -cutoff), min(hi, cutoff), eo, x)
+        if abs(value - trunc) < 1e-6:
+            continue
+        perturb = rng.random() < 0.3
+        g = make_grader(trunc if perturb else value, eo, x, infty_val=cutoff)
+        sub = [str(lo), str(hi), tpl.format(v='n'), 'n']
+        out = lib.call(ctx, g, None, sub)
+        ctx.ev()
+        ctx.count('beyond_cutoff_cases')
+        judge(ctx, 'C19:finite_limit_beyond_cutoff', out, not perturb,
+              {'submission': sub, 'even_odd': eo, 'infty_val': cutoff, 'reference_sum': value, 'sum_truncated_at_cutoff': trunc})
     # same-sign infinite limits cannot be summed
     g = make_grader(1.0, 0, 2.0)
     for sub in (['infty', 'infty', '1/2^n', 'n'], ['-infty', '-infty', '1/2^n', 'n']):
@@ -351,6 +373,10 @@ def run_errors(ctx):
         (['1', 'secret-2', 'n^2', 'n'], 'StudentFacing:UndefinedVariable', 'instructor_variable'),
         (['1', '5', 'm^2', 'n'], 'StudentFacing:UndefinedVariable', 'undefined_variable'),
         (['n', '5', 'n^2', 'n'], 'StudentFacing', 'variable_in_limit'),
+        (['1/2', 'infty', '1/2^n', 'n'], 'StudentFacing', 'noninteger_limit_with_infinite_partner'),
+        (['-infty', '5/2', '2^n', 'n'], 'StudentFacing', 'noninteger_limit_with_infinite_partner'),
+        (['infty', '0.5', '1/2^n', 'n'], 'StudentFacing', 'noninteger_limit_with_infinite_partner'),
+        (['i', 'infty', '1/2^n', 'n'], 'StudentFacing', 'complex_limit'),
     ]
     for i in range(ctx.pick(2, 10)):
         for sub, fam, kind in cases:
@@ -372,6 +398,7 @@ def run_errors(ctx):
         {'lower': '1', 'upper': '5', 'summand': '1/(n-3)', 'summation_variable': 'n'},
         {'lower': '1', 'upper': '5', 'summand': 'n', 'summation_variable': 'x'},
         {'lower': 'infty', 'upper': 'infty', 'summand': 'n', 'summation_variable': 'n'},
+        {'lower': '1/2', 'upper': 'infty', 'summand': '1/2^n', 'summation_variable': 'n'},
     ]
     for ans in author_bad:
         try:
